@@ -560,10 +560,68 @@ WAS the first high-frequency draw, so the two draw sets were not separate -/
 theorem pinned_seed_reuse (N : ℕ) (g : ℕ → ℝ) : loA (shOffsetPinned N true) g 0 0 0 = hiA N g 0 0 := by
   simp [loA, hiA, shOffsetPinned]
 
+/-! ### the FFT-object branch of `phasescreen.ift2` -/
+
+/-- `ft_phase_screen(..., FFT=obj)` with an object that computes the inverse transform (`fftshift(obj(fftshift(G)))`, a
+different shift pair from the default branch) is the SAME function of the draws for every even `N` — so every theorem
+above holds for that call path too -/
+theorem fft_branch_eq {N : ℕ} (he : N % 2 = 0) (r0 delta L0 l0 : ℝ) (a b : ℕ → ℕ → ℝ) (p q : ℕ) :
+    ftScreenFFT ℂ N r0 delta L0 l0 a b p q = ftScreen ℂ N r0 delta L0 l0 a b p q := by
+  unfold ftScreenFFT ftScreen
+  rw [ift2_psFFT_even he]
+
+theorem sh_fft_branch_eq {N : ℕ} (he : N % 2 = 0) (r0 delta L0 l0 : ℝ) (a b : ℕ → ℕ → ℝ) (la lb : ℕ → ℕ → ℕ → ℝ)
+    (u v : ℕ) :
+    shScreenFFT ℂ N r0 delta L0 l0 a b la lb u v = shScreen ℂ N r0 delta L0 l0 a b la lb u v := by
+  unfold shScreenFFT shScreen
+  rw [fft_branch_eq he]
+
+/-- hence e.g. the ensemble covariance of the FFT-object path -/
+theorem fft_branch_screen_eq_lin {N : ℕ} (hN : 0 < N) (he : N % 2 = 0) (r0 delta L0 l0 : ℝ) (a b : ℕ → ℕ → ℝ) (p q : ℕ) :
+    ftScreenFFT ℂ N r0 delta L0 l0 a b p q
+      = ∑ i ∈ range N, ∑ j ∈ range N, ampHi N r0 delta L0 l0 i j
+          * (a i j * Real.cos (theta N i j p q) - b i j * Real.sin (theta N i j p q)) := by
+  rw [fft_branch_eq he, screen_eq_lin hN he]
+
+/-! ### the domain: no division by zero, no power of a non-positive base
+
+Lean's field operations are total (`x / 0 = 0`, `0 ^ (-5/3) = 0`, `(-1) ^ (-5/3)` is some real), Python's are not
+(`ZeroDivisionError`, `nan`/complex).  `psd_is_stated`, `fgrid_is_stated`, … are stated without sign hypotheses and are
+true as equations between total functions; they describe the Python code only on the property's domain
+`N > 0`, `delta > 0`, `r0 > 0`, `L0 > 0`, `l0 > 0`.  The next theorem says that on this domain none of the model's
+divisions has a zero denominator and none of its real powers a non-positive base, so the totalised conventions are never
+exercised there. -/
+theorem domain_no_division_by_zero {N : ℕ} (hN : 0 < N) (r0 delta L0 l0 : ℝ) (hr : 0 < r0) (hd : 0 < delta)
+    (hL : 0 < L0) (hl : 0 < l0) (f : ℝ) (pp : ℕ) :
+    (N : ℝ) * delta ≠ 0                                        -- `1./(N*delta)`
+      ∧ l0 ≠ 0 ∧ 2 * Real.pi ≠ 0 ∧ fmOf l0 ≠ 0                 -- `5.92/l0/(2*numpy.pi)`, `f/fm`
+      ∧ L0 ≠ 0                                                 -- `1./L0`
+      ∧ 0 < r0                                                 -- `r0**(-5./3)`
+      ∧ 0 < f ^ 2 + (f0Of L0) ^ 2                              -- `/ (f**2 + f0**2)**(11./6)`
+      ∧ (((3 ^ (pp + 1) : ℕ) : ℝ) * ((N : ℝ) * delta)) ≠ 0    -- `1 / (3**p*D)`
+      ∧ (N : ℝ) * N ≠ 0 := by                                  -- `.mean()`
+  have hN' : (0 : ℝ) < N := by exact_mod_cast hN
+  have hfm : 0 < fmOf l0 := by
+    real_unfold [fmOf]
+    positivity
+  have hf0 : 0 < f0Of L0 := by
+    real_unfold [f0Of]
+    positivity
+  refine ⟨by positivity, hl.ne', by positivity, hfm.ne', hL.ne', hr, by positivity, by positivity, by positivity⟩
+
+/-- on the domain the spectrum is strictly positive at every sample that is not removed -/
+theorem psd_pos (f fm L0 r0 : ℝ) (hr : 0 < r0) (hL : 0 < L0) :
+    0 < Gen.psd_ft_phase_screen f fm (f0Of L0) r0 := by
+  rw [psd_is_stated]
+  have : 0 < f ^ 2 + 1 / L0 ^ 2 := by positivity
+  positivity
+
 /-! ### non-vacuity: the hypotheses are satisfiable and the statements are not about an empty sum -/
 
 example : ∃ N : ℕ, 0 < N ∧ N % 2 = 0 := ⟨8, by norm_num, by norm_num⟩
 example : ∃ r0 c : ℝ, 0 < r0 ∧ 0 < c := ⟨0.2, 2, by norm_num, by norm_num⟩
+example : ∃ r0 delta L0 l0 : ℝ, 0 < r0 ∧ 0 < delta ∧ 0 < L0 ∧ 0 < l0 :=
+  ⟨0.2, 0.1, 25, 0.01, by norm_num, by norm_num, by norm_num, by norm_num⟩
 
 /-- the DC-removed spectrum is not identically zero: at `N = 2` the sample `(0,0)` (frequency `(−Δf,−Δf)`) carries power,
 so `ensemble_cov`, `variance_const`, `r0_scaling` are statements about non-trivial sums -/
